@@ -413,3 +413,30 @@ Proof.
   destruct (finalise sp u w br r wr) as [[d u'] b'] eqn:Hf. inversion H; subst. split; [|reflexivity].
   eapply finalise_done_clean; eauto.
 Qed.
+
+(* ---------- C18, the converse: the Rollout's teardown is neither blocked nor quiet ---------- *)
+(* a reconcile of a Rollout in phase Terminating that keeps the finalizer asked for a requeue, or has just recorded the
+   Terminating condition as Completed *)
+Theorem rollout_teardown_never_stalls sp st w br m :
+  rs_deleting sp = true -> rp_phase st = RpTerminating -> reconcile sp st w br = ROut m -> o_finalizer m = true ->
+  o_requeue m = true \/ (rp_term st = Some false /\ exists s', o_status m = Some s' /\ rp_term s' = Some true).
+Proof.
+  intros Hd Hph H Hf. unfold reconcile in H. rewrite Hd in H.
+  destruct (calc_status sp st w) as [|s] eqn:Hc.
+  { injection H as <-. left. reflexivity. }
+  rewrite Hph in H. destruct (rp_term st) as [[|]|] eqn:Ht; [|destruct (wl_exists w && negb (wl_consistent w))|discriminate].
+  - injection H as <-. cbn in Hf. discriminate.
+  - injection H as <-. left. reflexivity.
+  - destruct (do_finalising sp s w br FrDelete false) as [[[done s1] br'] anno]. injection H as <-. cbn.
+    destruct done; [right; split; [reflexivity|]; eexists; split; reflexivity | left; reflexivity].
+Qed.
+(* and once the condition says Completed, the next reconcile gives the finalizer up: deletion is not blocked *)
+Theorem rollout_deletion_not_blocked sp st w br m :
+  rs_deleting sp = true -> rp_term st = Some true -> reconcile sp st w br = ROut m -> o_finalizer m = false.
+Proof.
+  intros Hd Ht H. unfold reconcile in H. rewrite Hd, Ht in H.
+  destruct (calc_status sp st w) as [|s]; [injection H as <-; reflexivity|].
+  destruct (rp_phase st); try (injection H as <-; reflexivity).
+  - destruct (progressing sp st s w br); [discriminate|injection H as <-; reflexivity|injection H as <-; reflexivity].
+  - destruct (do_finalising sp s w br FrDisabled false) as [[[done s1] br'] anno]. injection H as <-. reflexivity.
+Qed.
